@@ -268,7 +268,7 @@ def adaptStep (acc : List String × St) (adr : String) : List String × St :=
       if name != "" then (res ++ [name], st)
       else
         -- the group will be transferred under this name; it must not be mapped to a device
-        -- group later (repair 5th commit of this property, see docs/C03.md F-C03f)
+        -- group later (repair cfbdae7, F-C03f)
         (res ++ [gb.newName],
           { st with bGrp := modAt st.bGrp gbi (fun g => { g with onDev := gb.newName }) })
 
